@@ -2445,15 +2445,27 @@ class Driver(object, metaclass=DriverMetaclass):
         if MPI and problem.comm.rank != 0:
             iprint = 0
 
-        f_lsq = functools.partial(least_squares, self._compute_con_viol,
-                                  kwargs={'driver_scaling': driver_scaling,
-                                          'desvar_names': list(desvar_vals.keys())},
-                                  x0=x_init, bounds=bounds, verbose=2 if iprint == 2 else 0,
-                                  method=method, ftol=ftol, xtol=xtol, gtol=gtol,
-                                  x_scale=x_scale, loss=loss, max_nfev=max_nfev,
-                                  f_scale=f_scale, tr_solver=tr_solver,
-                                  tr_options=tr_options or {},
-                                  jac=jacfun)
+        con_viol_kwargs = {'driver_scaling': driver_scaling,
+                           'desvar_names': list(desvar_vals.keys())}
+        last_x = [None]
+
+        def con_viol(x, **kwargs):
+            last_x[0] = np.array(x)
+            return self._compute_con_viol(x, **kwargs)
+
+        def f_lsq():
+            res = least_squares(con_viol, kwargs=con_viol_kwargs,
+                                x0=x_init, bounds=bounds, verbose=2 if iprint == 2 else 0,
+                                method=method, ftol=ftol, xtol=xtol, gtol=gtol,
+                                x_scale=x_scale, loss=loss, max_nfev=max_nfev,
+                                f_scale=f_scale, tr_solver=tr_solver,
+                                tr_options=tr_options or {},
+                                jac=jacfun)
+            # The last point evaluated by least_squares may be a rejected trial step. Leave
+            # the model at the solution that is being reported.
+            if not np.array_equal(last_x[0], res.x):
+                con_viol(res.x, **con_viol_kwargs)
+            return res
 
         if iprint == 2:
             print()
